@@ -386,6 +386,7 @@ func mapValuesNonNil(m interface{}) bool { return false }
 func isFresh(x interface{}) bool { return false }
 func mapAt(m interface{}, key interface{}) interface{} { return nil }
 func mapAll(m interface{}) interface{} { return nil }
+func ghostAll(name string) interface{} { return nil }
 func mapHas(m interface{}, key interface{}) bool { return false }
 func disk(path string) int { return 0 }
 func diskOfFile(f interface{}) int { return 0 }
